@@ -20,7 +20,54 @@ fn check(f: &str, a: i64, b: i64, c: i64, d: i64) -> Option<Cex> {
     None
 }
 
+fn g128(a: i128, b: i128) -> i128 { let (mut a, mut b) = (a.abs(), b.abs()); while b != 0 { let t = a % b; a = b; b = t; } a }
+
+/// gcd / lcm for one integer type: operands are given as i128 and must be representable; lcm only when the mathematical value fits
+macro_rules! width {
+    ($name:ident, $t:ty, $tn:expr) => {
+        fn $name(a: i128, b: i128) -> Option<Cex> {
+            if a < <$t>::MIN as i128 || a > <$t>::MAX as i128 || b < <$t>::MIN as i128 || b > <$t>::MAX as i128 { return None; }
+            #[allow(unused_comparisons)]
+            if (<$t>::MIN as i128) < 0 && (a == <$t>::MIN as i128 || b == <$t>::MIN as i128) { return None; }
+            let gg = g128(a, b);
+            let mk = |o: String, e: String| Some(Cex { input: format!("w;{};{};{}", $tn, a, b), observed: o, expected: e });
+            let r = guarded(|| gcd(a as $t, b as $t) as i128);
+            if r != Ok(gg) { return mk(format!("gcd::<{}>({}, {}) = {:?}", $tn, a, b, r), format!("{}", gg)); }
+            if gg != 0 {
+                let l = (a / gg).checked_mul(b).map(|x| x.abs()).unwrap_or(i128::MAX);
+                if l <= <$t>::MAX as i128 && a.abs().checked_mul(b.abs()).map(|x| x <= <$t>::MAX as i128).unwrap_or(false) {
+                    let r = guarded(|| lcm(a as $t, b as $t) as i128);
+                    if r != Ok(l) { return mk(format!("lcm::<{}>({}, {}) = {:?}", $tn, a, b, r), format!("{}", l)); }
+                }
+            }
+            None
+        }
+    };
+}
+width!(w_i8, i8, "i8"); width!(w_u8, u8, "u8"); width!(w_i16, i16, "i16"); width!(w_u16, u16, "u16"); width!(w_i32, i32, "i32"); width!(w_u32, u32, "u32");
+width!(w_i64, i64, "i64"); width!(w_u64, u64, "u64"); width!(w_i128, i128, "i128"); width!(w_isize, isize, "isize"); width!(w_usize, usize, "usize");
+fn width_dispatch(t: &str, a: i128, b: i128) -> Option<Cex> {
+    match t { "i8" => w_i8(a, b), "u8" => w_u8(a, b), "i16" => w_i16(a, b), "u16" => w_u16(a, b), "i32" => w_i32(a, b), "u32" => w_u32(a, b), "i64" => w_i64(a, b),
+        "u64" => w_u64(a, b), "i128" => w_i128(a, b), "isize" => w_isize(a, b), _ => w_usize(a, b) }
+}
+/// egcd / crt in the other signed widths (i32, i128): same answers as in i64 for operands that fit
+fn other_widths(a: i64, b: i64, c: i64) -> Option<Cex> {
+    if a == 0 && b == 0 { return None; }
+    let solv = c % g(a, b) == 0;
+    let r32 = guarded(|| egcd(a as i32, b as i32, c as i32));
+    let ok32 = match &r32 { Ok(Some((x, y))) => solv && a as i128 * *x as i128 + b as i128 * *y as i128 == c as i128, Ok(None) => !solv, _ => false };
+    let r128 = guarded(|| egcd(a as i128, b as i128, c as i128));
+    let ok128 = match &r128 { Ok(Some((x, y))) => solv && a as i128 * *x + b as i128 * *y == c as i128, Ok(None) => !solv, _ => false };
+    if ok32 && ok128 { return None; }
+    Some(Cex { input: format!("ow;{};{};{};0", a, b, c), observed: format!("egcd::<i32>({},{},{}) = {:?}, egcd::<i128> = {:?}", a, b, c, r32, r128), expected: if solv { "Some((x,y)) with a*x+b*y==c".into() } else { "None".into() } })
+}
+
 pub fn run(_seed: u64, replay: Option<String>) -> Outcome {
+    if let Some(r) = &replay {
+        let p: Vec<&str> = r.split(';').collect();
+        if p[0] == "w" { return Outcome { cex: width_dispatch(p[1], p[2].parse().unwrap_or(0), p[3].parse().unwrap_or(0)), cases: 1 }; }
+        if p[0] == "ow" { return Outcome { cex: other_widths(p[1].parse().unwrap_or(0), p[2].parse().unwrap_or(0), p[3].parse().unwrap_or(0)), cases: 1 }; }
+    }
     if let Some(r) = replay {
         let p: Vec<&str> = r.split(';').collect();
         let n: Vec<i64> = p[1..].iter().map(|x| x.parse().unwrap_or(0)).collect();
@@ -34,6 +81,29 @@ pub fn run(_seed: u64, replay: Option<String>) -> Outcome {
     } }
     for &a in &big { for &b in &big { for f in ["gcd", "lcm"] { cases += 1; if let Some(c) = check(f, a, b, 0, 0) { return Outcome { cex: Some(c), cases }; } }
         for &c in &[0i64, 1, -1, 1 << 20, -(1 << 20), 360360] { cases += 1; if let Some(x) = check("egcd", a, b, c, 0) { return Outcome { cex: Some(x), cases }; } } } }
+    // every integer width and signedness: small operands, operands around half and the top of the type's range, powers of two
+    for (t, bits, signed) in [("i8", 8u32, true), ("u8", 8, false), ("i16", 16, true), ("u16", 16, false), ("i32", 32, true), ("u32", 32, false), ("i64", 64, true), ("u64", 64, false),
+                              ("i128", 127, true), ("isize", 64, true), ("usize", 64, false)] {
+        let top: i128 = if signed { (1i128 << (bits.min(127) - 1)) - 1 } else { (1i128 << bits) - 1 };
+        let half = top / 2 + 1;
+        let mut vals: Vec<i128> = vec![0, 1, 2, 3, 4, 6, 12, 100, 200, 128, 255, 20000, 40000, 1 << 20, (1 << 20) - 1, half, half + 1, half - 1, half / 3 * 2, top, top - 1, top - 2, top / 3, top / 5 * 4];
+        if signed { let neg: Vec<i128> = vals.iter().map(|x| -x).collect(); vals.extend(neg); }
+        for &a in &vals { for &b in &vals { cases += 1; if let Some(c) = width_dispatch(t, a, b) { return Outcome { cex: Some(c), cases }; } } }
+    }
+    for a in -9..=9i64 { for b in -9..=9i64 { for c in -9..=9i64 { cases += 1; if let Some(x) = other_widths(a, b, c) { return Outcome { cex: Some(x), cases }; } } } }
+    for &a in &[1i64 << 14, -(1 << 14), 9973, 720] { for &b in &[1i64 << 14, 16381, -360, 12] { for &c in &[0i64, 1, 4, -12, 1 << 14] { cases += 1; if let Some(x) = other_widths(a, b, c) { return Outcome { cex: Some(x), cases }; } } } }
+    // larger, mostly non-coprime moduli
+    for &m1 in &[12i64, 30, 64, 360, 1000, 1 << 10, 999983, 1 << 20] { for &m2 in &[18i64, 45, 96, 1000, 729, 1 << 12, 999979, (1 << 20) - 2] {
+        for &a1 in &[0i64, 1, 5, 11, m1 - 1, m1 / 2] { for &a2 in &[0i64, 1, 7, 17, m2 - 1, m2 / 3] {
+            if a1 >= m1 || a2 >= m2 || a1 < 0 || a2 < 0 { continue; }
+            cases += 1;
+            let gg = g(m1, m2);
+            let l = m1 / gg * m2;
+            let r = guarded(|| crt(a1, m1, a2, m2));
+            let ok = match &r { Ok(Some(x)) => (a2 - a1) % gg == 0 && *x >= 0 && *x < l && x % m1 == a1 && x % m2 == a2, Ok(None) => (a2 - a1) % gg != 0, _ => false };
+            if !ok { return Outcome { cex: Some(Cex { input: format!("crt;{};{};{};{}", a1, m1, a2, m2), observed: format!("crt({},{},{},{}) = {:?}", a1, m1, a2, m2, r), expected: if (a2 - a1) % gg == 0 { "the solution in [0, lcm)".into() } else { "None".into() } }), cases }; }
+        } }
+    } }
     for m1 in 1..=12i64 { for m2 in 1..=12i64 { for a1 in 0..m1 { for a2 in 0..m2 {
         cases += 1; if let Some(c) = check("crt", a1, m1, a2, m2) { return Outcome { cex: Some(c), cases }; } } } } }
     Outcome { cex: None, cases }
